@@ -598,6 +598,10 @@ func (w *mgrWorld) use(caller, useIdx int, u usePlan, mustSucceed bool) (ok bool
 	if err != nil {
 		return fail("GetStream", err)
 	}
+	if st == nil {
+		w.fail(w.own+".open_nil", nil, "caller %d: GetStream returned neither a stream nor an error", caller)
+		return false
+	}
 	if other, dup := w.held[st]; dup {
 		w.fail("C15.double_handout", nil, "caller %d obtained a stream (id %d) that caller %d still holds", caller, st.StreamID(), other)
 		return false
